@@ -124,7 +124,7 @@ def _convert_arg_to_type(
         if len(value) == 0:
             if NoneType in get_args(dest_type):
                 return None
-            else:
+            elif not isa(value, dest_type):
                 raise ValueError("Argument must contain a value")
 
     # first check if an individual value passes the type check
